@@ -1,6 +1,6 @@
 From Coq Require Import Extraction ExtrOcamlBasic ExtrOcamlString.
 From RV Require Import Base.Bytes Gen.Consts Format.Xxh3 Format.Codec Format.Pages Format.Records
-  Format.KeyCmp Format.Decode Format.WF Format.Example.
+  Format.KeyCmp Format.Decode Format.WF Format.Example Format.TreeWriter Format.TreeShape Format.ImageWriter.
 Extraction Language OCaml.
 Extraction "../ocaml/gen/fmt_model.ml"
   xxh3_128 decode_header decode_db decode_db_at decode_chunks decode_chunks_at header_bytes chunks_of wf_dbb wf_imageb wf_explain unknown_order_tables
@@ -12,4 +12,5 @@ Extraction "../ocaml/gen/fmt_model.ml"
   encode_bhdr decode_bhdr encode_page_list decode_page_list encode_savepoint decode_savepoint
   decode_leaf decode_branch decode_tabledef decode_collection cmp_of_typename
   NAME_DATA_FREED NAME_SYSTEM_FREED NAME_DATA_ALLOCATED NAME_SAVEPOINTS NAME_NEXT_SAVEPOINT NAME_ALLOCATOR_STATE
-  ex_image_of TRANSACTION_SIZE le_encode le_decode takeN dropN lenN.
+  ex_image_of TRANSACTION_SIZE le_encode le_decode takeN dropN lenN
+  encode_tree finalize tree_image tree_header limits_okb writer_okb wnode_len wpages wnodes wheight find_table db1_image db1_okb.
